@@ -1252,8 +1252,10 @@ class MemoryCache:
         try:
             self.refs[cache_key] = result
         except TypeError:
-            # primitives like ints, strs, and dicts can't be weakrefed
-            pass
+            # primitives like ints, strs, and dicts can't be weakrefed. Do not leave a
+            # reference to an earlier result of this call behind: it would be served
+            # again once the new result is no longer resident.
+            self.refs.pop(cache_key, None)
 
     def put(self, memento: Memento, result: object, has_result: bool):
         with self._lock:
